@@ -30,6 +30,7 @@ class FastCtx(Ctx):
     def __init__(self, *a, **kw):
         self.use_witness = kw.pop('use_witness', True)
         self.use_memo = kw.pop('use_memo', True)
+        self.retry_factor = kw.pop('retry_factor', 6)     # one retry of an 'unknown' obligation at this multiple of the time limit
         Ctx.__init__(self, *a, **kw)
         self.stats.update(memo_hits=0, witness_hits=0, witness_rebuilds=0)
 
@@ -114,6 +115,50 @@ class FastCtx(Ctx):
                 self._wit = None
 
     assume = add
+
+    # -- obligations ---------------------------------------------------------
+    def prove(self, formula, label, info=None):
+        r = Ctx.prove(self, formula, label, info)
+        if r == 'unknown' and self.retry_factor:
+            # the machine may be heavily loaded: retry once with a longer limit
+            self.unknowns.pop()
+            self.stats['ob_unknown'] -= 1; self.stats['obligations'] -= 1
+            old = self.timeout_ms
+            self.timeout_ms = old * self.retry_factor
+            try: r = Ctx.prove(self, formula, label, info)
+            finally: self.timeout_ms = old
+        return r
+
+    # -- path-level failure -------------------------------------------------
+    def refute_path(self, label, info=None):
+        """Obligation `False` on this path (e.g. the code under test raised, or
+        a concrete comparison failed): decided by satisfiability of the WHOLE
+        path condition.  'sat' records a failure with a model of the full pc,
+        'unsat' means the path was infeasible after all, 'unknown' is recorded
+        as an unknown obligation."""
+        self.stats['obligations'] += 1
+        r, m = self.solve(z3.BoolVal(True), full=True)
+        if r not in ('sat', 'unsat') and self.retry_factor:
+            r, m = self.solve(z3.BoolVal(True), full=True, timeout_ms=self.timeout_ms * self.retry_factor)
+        if r == 'sat':
+            self.stats['ob_sat'] += 1
+            self.failures.append(dict(label=label, info=info, model=m, formula=z3.BoolVal(False)))
+        elif r == 'unsat':
+            self.stats['ob_unsat'] += 1
+        else:
+            self.stats['ob_unknown'] += 1
+            self.unknowns.append(dict(label=label, info=info))
+        return r
+
+    def holds(self, ok, label, info=None):
+        """Concrete verdict `ok` on this path: True counts as a discharged
+        obligation, False is decided by refute_path."""
+        if ok:
+            self.stats['obligations'] += 1
+            self.stats['ob_unsat'] += 1
+            self.stats['ob_trivial'] = self.stats.get('ob_trivial', 0) + 1
+            return 'unsat'
+        return self.refute_path(label, info)
 
     # -- branching ----------------------------------------------------------
     def branch(self, e):
